@@ -10,6 +10,22 @@ NOTE = ("Trusted: Coq 8.16.1 kernel (no axioms: every property theorem prints 'C
         "The theorems are about the hand-written Gallina model; the model is tied to /repo on every run by the table "
         "translator and by the differential correspondence run, which bounds what has been exercised.")
 CLAIMED = {
+    "C07": dict(
+        text="13 theorems, all full: the loader model refines an independent tree specification build_docs for EVERY document list "
+             "(generalised stack lemma by induction on event trees: sequences in order, key/value pairing, aliases as copies of the "
+             "completed anchored node or BadValue for an open one, later duplicate wins with move-to-back); every event list accepted by "
+             "the grammar acceptor decomposes into trees, loads without panic to the spec documents; composition with C02 for any token "
+             "stream. Tie: the extracted spec is applied to the implementation's own events and compared with its loaded documents; "
+             "synthetic sentences (all small mappings over 8 key kinds, random trees with aliases) pushed into the real YamlLoader.",
+        ref="DESIGN.md 5/C07", tech="Rocq proof (refinement of the loader to a tree spec, all sentences) + extracted spec as oracle on implementation events + synthetic event sentences into the real loader"),
+    "C19": dict(
+        text="15 theorems: a generic loader over the LoadableYamlNode operations instantiated for plain and span-carrying nodes: erasing "
+             "spans from the marked load gives the plain load (same errors/panic sites); marked equality and hashing ignore spans; deferred "
+             "loading followed by recursive resolution equals eager loading under node equality for EVERY event list (key lemma about "
+             "re-collecting a mapping under any equality-preserving map, so keys that become equal after resolution are covered); "
+             "resolution is the identity on resolved trees and idempotent. Tie: 4 node types x eager/deferred/resolved dumps, errors, "
+             "spans, ==/hash on real inputs and synthetic sentences. Known finding: {0.0, -0.0} keys keep different key objects.",
+        ref="DESIGN.md 5/C19", tech="Rocq proof (span erasure, deferred+resolve = eager, all event lists) + differential correspondence across node types and modes"),
     "C09": dict(
         text="9 theorems over an emitter model whose tables are regenerated from emitter.rs: need_quotes s = false => the resolver reads s "
              "back as the same string (breaks if the resolver disjunct leaves need_quotes); shape facts of unquoted strings; every "
